@@ -456,6 +456,13 @@ func (c *relCtx) c07(t *expr.Expr, ci, di int, info map[string]interface{}) {
 			}
 		}
 		c.emit(group{Rel: "flag", Ok: same, Info: map[string]interface{}{"law": "all spellings parse to the same paths", "spellings": texts, "cfg": info["cfg"]}})
+		exact := true
+		for _, tr := range trees {
+			if !expr.Same(tr, t, false) {
+				exact = false
+			}
+		}
+		c.emit(group{Rel: "flag", Ok: exact, Info: map[string]interface{}{"law": "every spelling denotes exactly the path parts it spells (no trimming, no case folding)", "spellings": texts, "cfg": info["cfg"]}})
 	}
 }
 
